@@ -33,7 +33,8 @@ CHECKS = {
         technique='six-way differential of client-boundary traces (local / gRPC / split-Pythia x RAM / SQLite) + absolute client_abc promise monitors + server-side write monitor',
         text=('~600 generated client programs per quick run, each replayed through the real client library on six deployment x '
               'datastore combinations under a fresh owner; every method call recorded as normalised return value or exception class; '
-              'traces must be equal; missing study/trial => ResourceNotFoundError, finished study => [], add_trial outside the space '
+              'traces must be equal (bulky 20-70 kB metadata values included); one probe per shard runs two clients on two different studies '
+              'at the same time with a slow algorithm in every deployment; missing study/trial => ResourceNotFoundError, finished study => [], add_trial outside the space '
               '=> ValueError, complete() without data => ValueError; lifecycle monitor on every server-side trial write.'),
         note='Datastore NotFoundError in process and status NOT_FOUND over the wire count as the same error class; messages are not compared.'),
     'C19': dict(
@@ -46,12 +47,15 @@ CHECKS = {
         note='Re-evaluation tolerance 5e-5*magnitude (float32) / 1e-11 (float64); JIT cost bounds the number of distinct shapes (~50 per quick run).'),
     'C05': dict(
         engine='crash', category='fault_enumeration', design='4/C05',
-        technique='SIGKILL injection at every SQL execute/commit boundary of a forked real server (exhaustive per RPC x prefix) + strace syscall-level kills (thorough) + restart and recovery oracle',
+        technique='SIGKILL injection at every SQL execute/commit boundary of a forked real server (exhaustive per RPC x prefix) + strace syscall-level kills (slice in quick, full in thorough) + restart and recovery oracle + committed==visible monitor (second connection) + journal-mode probe of the live connection',
         text=('68 (prefix, victim RPC) items, every before/after execute/commit boundary of the victim hit (~1400 crash points per '
               'quick run, dry run counts boundaries): after restart on the same file the state must equal acknowledged-only or '
               'acknowledged+victim (single-resource calls), each record one of the two versions (SuggestTrials / early stopping), all '
               'records parse, ids unique, legal states, no orphan rows, and suggest+complete works for the same and a new worker. '
-              'Thorough adds kills at pwrite64/fdatasync/unlink inside SQLite via strace inject.'),
+              'After every answered call of the reference runs every table is read through the server connection and through a second '
+              'sqlite3 connection (an acknowledged change still pending is reported at once); PRAGMA journal_mode of the live connection '
+              'must allow rollback. Quick runs 3 pwrite64 kill points per shard inside SQLite via strace inject; thorough all '
+              'pwrite64/fdatasync/unlink points of 12 items.'),
         note=('Process death only (no power loss / torn sectors). Expected states are produced by the real servicer without a crash. '
               'Child created with fork() from an initialised worker.')),
     'C20': dict(
@@ -60,17 +64,23 @@ CHECKS = {
         text=('~4800 random wrapper stacks (depth 1..3) per quick run over BBOB(24), Branin, Hartmann, SimpleKD, DTLZ/ZDT/WFG bases: '
               'every trial completed with the statement metric names, parameters deep-equal to a snapshot, problem_statement by value, '
               'inner call exactly once at the oracle-predicted point, outcome = documented transform, infeasibility marks survive, '
-              'seeded noise reproducible, batch == one-by-one.'),
+              'seeded noise reproducible (second object, and two fresh interpreters with different hash salts), batch == one-by-one.'),
         note='Base references: direct BBOB/optproblems calls, Branin/Hartmann re-implemented from published formulae. Unseeded noise not tested.'),
     'C04': dict(
         engine='sched', category='exploration', design='4/C04',
         technique='controlled thread scheduler (bounded-preemption DFS + random) over real servicer threads; offline check of each observed outcome against all serial orders up to trial-id bijection; free-running stress judged by conservation invariants',
-        text=('~1900 (prefix, concurrent set) combos x 2 datastores; per combo every schedule with <=2 (quick) / <=3 (thorough) '
-              'pre-emptions at service-lock / datastore-lock acquisition granularity (capped) plus random schedules; half of the matrix with gRPC-handler error semantics - ~50k schedules per quick run; '
-              'deadlock detector, unfinished-operation scan, write monitor, persisted-algorithm-counter check; plus 8-12 free threads x '
-              '60-400 ops with unique payload ids checked for lost measurements / metadata / duplicate ids.'),
-        note=('Serial outcomes come from the real servicer run sequentially (serialisability only). Interleavings inside one datastore '
-              'call, sqlalchemy or grpc thread pools are only reached by the stress part.')),
+        text=('~1200 (prefix, concurrent set) combos x 2 datastores (8 prefixes incl. a pool of queued trials and a paused study; pairs and '
+              'triples of 13 mutating RPC kinds, every multi-step writer paired with 4 pure reads); per combo schedules with <=2 (quick) / <=3 '
+              '(thorough) pre-emptions, cheapest first, capped, plus random schedules; yield points: acquisition of every service lock and of '
+              'the datastore lock, release of the datastore lock, and with a read in the set every SQL statement / commit / rollback; half of '
+              'the matrix with gRPC-handler error semantics; ~40k schedules per quick run (a time-boxed, seed-shuffled half of the combos; '
+              'thorough covers all). Per schedule: deadlock detector, unfinished-operation scan, write monitor, persisted-algorithm-counter '
+              'check, comparison with every serial order up to trial-id bijection, and three sequential follow-up calls compared as well '
+              '(state living only in server memory). Plus 8-12 free threads x 60-150 ops incl. racing reads, unique payload ids checked for '
+              'lost measurements / metadata / duplicate ids; deadlock decided on progress, not wall clock.'),
+        note=('Serial outcomes come from the real servicer run sequentially (serialisability only). A pre-emption between two plain Python '
+              'statements outside the yield points, sqlalchemy internals or grpc thread pools are only reached by the stress part. Known-finding '
+              'ids name the failing history (which trial is deleted / whose response differs).')),
     'C09': dict(
         engine='value-gen', category='exploration', design='4/C09',
         technique='round-trip and re-conversion monitors on every pyvizier<->proto converter over generated values + through-service read-back',
@@ -124,17 +134,20 @@ CHECKS = {
         note='Trusted: vv/model.py _follow_suggest; harness algorithm plugged in via the documented policy_factory argument.'),
     'C06': dict(
         engine='rpc-model', category='fault_enumeration', design='4/C06',
-        technique='fault-injecting algorithm (8 exception types x suggest/early-stop x first/k-th/every; deliveries 0..N+3) + unfinished-operation scan + reach-again probes + client poll cap',
+        technique='fault-injecting algorithm (12 exception types incl. the Pythia interface\'s own error classes x suggest / early-stop / building the algorithm x first/k-th/every, persistent for the whole request; hostile exception texts; deliveries 0..N+3) + unfinished-operation scan + reach-again probes + client probe (failure must be raised, poll cap)',
         text=('~700 fault scenarios per quick run on in-process Pythia (RAM, SQLite) and remote Pythia over gRPC; after each call '
               'no stored operation may be done=False, failures must be reported, later requests by the same/other worker must '
               'reach the algorithm again; VizierClient.get_suggestions must terminate within 20 polls.'),
         note='Trusted: harness policy/controller, model. early_stop_recycle_period=0 so a later check may reach the algorithm.'),
     'C07': dict(
         engine='rpc-model', category='exploration', design='4/C07',
-        technique='three-way differential (RAM / sqlite memory / sqlite file) of outcome classes, responses and ordered stored state after every call',
+        technique='three-way differential (RAM / sqlite memory / sqlite file) of outcome classes, responses, ordered stored state, early-stopping answers and algorithm reach after every call + committed==visible monitor on the SQLite file',
         text=('Each program runs on three real servicers; pairwise comparison after every call plus GetOperation comparison at '
               'the end; the RAM run is also checked against the reference model. Workload aimed at delete+re-create, failed '
-              'metadata updates, early stopping, unknown owners.'),
+              'metadata updates (missing and invalid trial ids), early stopping with deterministic harness decisions, unknown owners, near-miss '
+              'resource names, sibling study names that collide under LIKE, and a scripted id-reuse tail (decide about a trial, delete it, '
+              'hand out the next one, ask again). After every call on the SQLite file all tables are read through the server connection and '
+              'through a second connection and must agree.'),
         note='Malformed resource names may be INVALID on one backend and NOT_FOUND on another (counted as the same rejection).'),
     'C10': dict(
         engine='rpc-model', category='exploration', design='4/C10',
@@ -148,14 +161,19 @@ CHECKS = {
         technique='recording designer behind the real policy wrappers + exactly-once ledger keyed by trial identity',
         text=('Every Designer.update() is logged with the ground-truth trial table of that instant; ledger checks active==ACTIVE '
               'now, completed==not-yet-delivered completed trials, no duplicates, across service (state via metadata, rebuilt '
-              'per request), DesignerPolicy and a policy kept alive over InRamPolicySupporter; deletions and state corruption injected.'),
+              'per request), DesignerPolicy, a policy kept alive over InRamPolicySupporter, one policy object kept alive per study by the '
+              'factory, and an SQLite file with server restarts; deletions (incl. runs of the newest trials), study re-creation under the same '
+              'name, state corruption, empty infeasibility reasons, and a completion by another worker injected between two reads of a '
+              'running request (yield point at the supporter boundary).'),
         note='Trusted: WriteMonitor.created_serial as trial identity; ledger resets when the policy could not restore state.'),
     'C18': dict(
         engine='value-gen', category='exploration', design='4/C18',
         technique='runtime monitors on every warp()/unwarp() call of the real warpers over generated label arrays',
         text=('Each quick run drives ~30k warp() executions (14 subjects x 12 array classes) through monitors for '
               'shape, finiteness, bitwise input snapshot, infeasible<=worst feasible, rank preservation (default '
-              'pipeline family), no order reversal (all subjects) and unwarp(warp(y))==y. Held-on-what-was-executed; '
+              'pipeline family), no order reversal (all subjects) and unwarp(warp(y))==y; a re-used warper object must warp and un-warp '
+              'like a fresh one; the multi-metric GP designer\'s own label step is compared per metric column with a fresh default '
+              'pipeline. Held-on-what-was-executed; '
               'the generator is seeded so other seeds reach other arrays.'),
         note=('Trusted: numpy comparison semantics, the harness generators. Tolerances: distinct-stay-distinct only '
               'for gaps >1e-9 of range; reversal slack 1e-12 relative; extreme (>=1e150) class only finiteness.')),
